@@ -251,10 +251,10 @@ def check(ctx):
             if st.get("k") == "expr" and st["e"].get("k") == "if":
                 first_if = st["e"]
                 break
-        if first_if is not None and first_if["cond"].get("k") == "macro" and first_if["cond"]["name"] == "matches":
-            pat = first_if["cond"].get("pat", {})
-            cases = pat["cases"] if pat.get("k") == "or" else [pat]
-            prims = {c["lit"]["v"] for c in cases if c.get("k") == "lit"}
+        from srclib import literal_set_guard
+        lsg = literal_set_guard(S, first_if["cond"]) if first_if is not None else None
+        if lsg is not None:
+            prims = set(lsg[1])
             rets = [expr_text(x["expr"]) for x in walk_block(first_if["then"]) if x.get("k") == "return" and x.get("expr")]
             if {"string", "number", "boolean"} <= prims and rets == ["ts_type.to_string()"]:
                 r5.ok("primitives %s are returned unchanged" % sorted(prims))
